@@ -149,6 +149,18 @@ crypt_sha1crypt_rn (const char *phrase, size_t phr_size,
 
   sl = (size_t)(sp - setting);
 
+  /* $sha1$<iterations>$<salt>$<digest> must fit into the output buffer:
+     the snprintf calls below would truncate a longer salt and still
+     report its full length.  */
+  dl = 1;
+  for (ul = iterations; ul >= 10; ul /= 10)
+    dl++;
+  if (sl > out_size - (strlen (magic) + (size_t)dl + 2 + SHA1_OUTPUT_SIZE + 1))
+    {
+      errno = ERANGE;
+      return;
+    }
+
   /*
    * Now get to work...
    * Prime the pump with <salt><magic><iterations>
